@@ -1,7 +1,7 @@
 (** C03 — circular arcs (flattenEllipticArc, circle branch) and arc-to-cubic conversion (ellipseToCubicBeziers).
     Relational model: square roots and trigonometric functions never appear; the centre computed by the Go code
     (ellipseToCenter) is part of the certificate and is constrained by polynomial relations checked in Q. *)
-From Coq Require Import ZArith QArith List Bool.
+From Coq Require Import ZArith QArith Qabs Qminmax List Bool.
 From CV Require Import Base.Dy Flat.Curves Flat.Cert.
 Import ListNotations.
 Open Scope Q_scope.
@@ -159,3 +159,75 @@ Definition judge_arccube (e : ellipse) (ok : bool) (cubics : list (list pt)) : l
   let bad := filter (fun c => negb (chk_arc_cubic e arc_eps arc_sub c)) cubics in
   [ ((if joined cubics then 0 else 2) + (match bad with [] => 0 | _ => 8 end))%Z; Z.of_nat (length cubics);
     0%Z; Z.of_nat (length bad); 0%Z ].
+
+(** ** Flattening of a (non-circular) elliptic arc: flattenEllipticArc
+    The vertices are judged in the plane of the ellipse's unit circle, u = (el_u, el_v): the point X has distance
+    |rho - 1| from the unit circle there (rho = |u|), hence at least rmin |rho - 1| and at most |X - c| |1 - 1/rho| from the
+    ellipse (the map back stretches by at least the smaller radius; X/rho is on the ellipse).  A chord between two points
+    of the ellipse: an affine map keeps parallelism, so the arc point farthest from the chord line is the image of the
+    middle of the circle arc, c + (M - c)/rho_m with M the chord's midpoint and rho_m = |u(M)|; its distance to the chord
+    line is h (1 - rho_m)/rho_m with h the distance of the centre from the chord line.  Square roots are bracketed
+    (sqrt_lo / sqrt_hi, k = 40).  Three-valued: accepted / definite violation / undecided. *)
+From CV Require Import Split.Cert.
+
+Definition el_uv (e : ellipse) (p : pt) : pt := (el_u e p, el_v e p).
+Definition rmin (e : ellipse) : Q := Qmin (el_rx e) (el_ry e).
+
+(** vertex: 0 accepted (within tol of the ellipse), 1 definitely farther than tol, 2 undecided *)
+Definition ell_vertex (e : ellipse) (tol : Q) (p : pt) : Z :=
+  let n := Qred (conic e p) in
+  let d := Qabs (n - 1) in
+  let rlo := sqrt_lo 40 n in let rhi := sqrt_hi 40 n in
+  let xc := sqrt_hi 40 (Qred (dist2 p (el_c e))) in
+  if Qleb (xc * d) (tol * rlo * (rlo + 1)) then 0%Z
+  else if Qltb (tol * (rhi + 1)) (rmin e * d) then 1%Z else 2%Z.
+
+(** chord v -> w (both accepted vertices): 0 every arc point between them is within K tol of the chord line,
+    1 the arc point over the middle of the chord is definitely farther than K tol, 2 undecided *)
+Definition ell_chord (e : ellipse) (ktol : Q) (v w : pt) : Z :=
+  let m := (((px v + px w) / 2), ((py v + py w) / 2)) in
+  let n := Qred (conic e m) in
+  let rlo := sqrt_lo 40 n in let rhi := sqrt_hi 40 n in
+  let ed := vsub w v in
+  let cr := vcross ed (vsub (el_c e) v) in
+  let h2 := Qred (sqr cr / nrm2 ed) in
+  let hlo := sqrt_lo 40 h2 in let hhi := sqrt_hi 40 h2 in
+  if Qleb (nrm2 ed) 0 then 0%Z
+  else if Qleb (hhi * (1 - rlo)) (ktol * rlo) then 0%Z
+  else if Qltb (ktol * rhi) (hlo * (1 - rhi)) then 1%Z else 2%Z.
+
+Fixpoint ell_chords (e : ellipse) (ktol : Q) (vs : list pt) : list Z :=
+  match vs with
+  | v :: ((w :: _) as vs') => ell_chord e ktol v w :: ell_chords e ktol vs'
+  | _ => []
+  end.
+
+(** flags: 1 panic / not a finite polyline, 2 end points not preserved, 4 PROP a vertex is definitely farther than tol from
+    the ellipse, 8 PROP an arc point is definitely farther than K tol from its chord, 16 PROP vertices do not advance
+    monotonically in the sweep direction through the right number of quadrants, 128 tie: the centre is not the centre of an
+    ellipse through both end points, 256 info: some vertex or chord undecided.  Output [flags; chords; undecided; 0; 0] *)
+Definition judge_ellflat (e : ellipse) (s t : pt) (large sweep : bool) (tol K slack : Q) (ok : bool) (vs : list pt) : list Z :=
+  if negb ok then [1%Z; 0%Z; 0%Z; 0%Z; 0%Z] else
+  match vs with
+  | v0 :: _ =>
+      let ends := negb (close v0 s (1 # 1073741824) && close (last vs v0) t (1 # 1073741824) && Nat.leb 2 (length vs)) in
+      let ctr := negb ((ell_vertex e slack s =? 0)%Z && (ell_vertex e slack t =? 0)%Z) in
+      let vr := map (ell_vertex e (tol + slack)) vs in
+      let cr := ell_chords e (K * tol + slack) vs in
+      let us := map (el_uv e) vs in
+      let turn := match us with
+                  | u0 :: _ =>
+                      match turning sweep u0 (0, 0) us 0%Z 0%Z with
+                      | None => false
+                      | Some n => (n <=? 3)%Z &&
+                                  (let x := vcross u0 (last us u0) in
+                                   (Qleb (Qabs x) (1 # 1048576)) || Bool.eqb large (2 <=? n)%Z ||
+                                   (* a half turn up to rounding satisfies both *) ((n =? 2)%Z && Qleb (Qabs x) (1 # 1024)))
+                      end
+                  | [] => false
+                  end in
+      let und := Z.of_nat (length (filter (Z.eqb 2) (vr ++ cr))) in
+      [ (bitz ends 2 + bitz (existsb (Z.eqb 1) vr) 4 + bitz (existsb (Z.eqb 1) cr) 8 + bitz (negb turn) 16 + bitz ctr 128 +
+         bitz (0 <? und)%Z 256)%Z; Z.of_nat (length vs - 1); und; 0%Z; 0%Z ]
+  | [] => [1%Z; 0%Z; 0%Z; 0%Z; 0%Z]
+  end.
